@@ -183,7 +183,7 @@ class Ctx:
                 self.note('AUTO import: ' + name)
                 continue
             path = ('impl %s :: %s %s' % (impl_hdr, kw, name)) if impl_hdr else ('%s %s' % (kw, name))
-            e = extract(self.repo, rel, path, key='helper:' + name)
+            e = extract(self.repo, rel, path, key='helper:' + (re.sub(r'\s+', '', impl_hdr) + '::' if impl_hdr else '') + name)
             e.strip_docs(); e.inner_attrs(); e.drop_log_macros()
             e.replace_macro('anyhow', 'Error::msg()'); e.replace_macro('bail', 'return Err(Error::msg())')
             for rw in self.helper_rewrites:
